@@ -106,6 +106,20 @@ def _check_1d(desc, tier, V, st):
                 ok, info = agree(y, c, der)
                 if not ok:
                     V('1d-eval_vector:der%d' % der, '%s coeffs=%s: Spline1D.eval_vector(der=%d) off by %.3g at x=%r' % (key, name, der, info[0], info[1]))
+                if name in ('dense', 'ones'):
+                    # the caller's output (and input) may be a strided window of a larger array: column of a table, every
+                    # second entry, reversed view
+                    big = np.full((len(X), 3), np.nan)
+                    spl.eval_vector(X, big[:, 1], der)
+                    xin = np.repeat(X, 2)[::2]
+                    rv = np.full(len(X), np.nan)
+                    spl.eval_vector(xin, rv[::-1], der)
+                    st['evals'] += 2
+                    ok1, i1 = agree(big[:, 1].copy(), c, der)
+                    ok2, i2 = agree(rv[::-1].copy(), c, der)
+                    if not (ok1 and ok2) or not (np.isnan(big[:, 0]).all() and np.isnan(big[:, 2]).all()):
+                        V('1d-eval_vector-strided-output:der%d' % der, '%s coeffs=%s: Spline1D.eval_vector into a strided view off by %.3g (or wrote outside the view)' % (
+                            key, name, max(i1[0], i2[0]) if np.isfinite(max(i1[0], i2[0])) else float('nan')))
                 # the order of the points in an array must not matter: decreasing and scrambled arrays
                 for oname, o in (('decreasing', rev), ('scrambled', scr)):
                     yo = np.full(len(X), np.nan)
@@ -321,6 +335,11 @@ def _check_2d(da, db, tier, V, st):
                 sp.eval_vector(Xs, Ys, z, d1, d2)
                 if not (np.abs(z - want).max() <= t):
                     V('2d-eval_vector:der%d%d' % (d1, d2), '%s dense: Spline2D.eval_vector(der=(%d,%d)) off by %.3g' % (key, d1, d2, np.abs(z - want).max()))
+                zb = np.full((want.shape[0], 2 * want.shape[1]), np.nan)
+                sp.eval_vector(Xs, Ys, zb[:, ::2], d1, d2)
+                if not (np.abs(zb[:, ::2] - want).max() <= t) or not np.isnan(zb[:, 1::2]).all():
+                    V('2d-eval_vector-strided-output:der%d%d' % (d1, d2), '%s dense: Spline2D.eval_vector into a strided view off by %.3g (or wrote outside the view)' % (
+                        key, np.abs(zb[:, ::2] - want).max()))
                 ox = np.array(sorted(range(len(Xs)), key=lambda i: (i * 7919 + 13) % 10007))[::-1]
                 oy = np.array(sorted(range(len(Ys)), key=lambda i: (i * 104729 + 5) % 10007))
                 zo = np.full(want.shape, np.nan)
